@@ -145,6 +145,11 @@ def install():
 
 def plan(tier, rng, sl, nslices, stats):
     cfg = TIERS[tier]
+    if sl == 0:
+        # scale cases (one worker): sizes that small-scope generation never reaches
+        for c in (gfa.word_chain_case(1500), gfa.many_classes_case(rng), gfa.many_symbols_case(rng)):
+            c["words"] = 0
+            yield c
     for i in range(cfg["random"]):
         if i % 25 == 24:
             c = gfa.large_case(rng)
